@@ -1,15 +1,2 @@
-import Dasp.Machine.Int
-import Dasp.Machine.FP
-import Dasp.Lemmas.Rne
-import Dasp.Lemmas.Round
-import Dasp.Lemmas.ConvFloat
-import Dasp.Proto.Dfs
-import Dasp.Proto.Ring
-import Dasp.Proto.Sig
-import Dasp.Proto.Fork
-import Dasp.Proto.Bus
-import Dasp.Proto.Simplex
-import Dasp.Proto.Windower
-import Dasp.Proto.Types
-import Dasp.Proto.Converter
-import Dasp.Proto.SqrtTrick
+-- Root of the library: every property module (append one line per property).
+import Dasp.Props.C01
